@@ -425,6 +425,17 @@ def run():
         "log-normal": [{"do": "log_start"}, r_ok, {"do": "log_finish"}, r_ok],
         "env-roundtrip": [dict(r_ok, sig=True), {"do": "set_env", "key": "PRQL_VERSION_OVERRIDE", "value": "9.9.9"}, dict(r_ok, sig=True), {"do": "unset_env", "key": "PRQL_VERSION_OVERRIDE"}, dict(r_ok, sig=True)],
     }
+    # search mode: an environment variable the model does not know about is read somewhere -> try values
+    unknown_env = []
+    if "error" not in info:
+        for f_, k_, i_ in sorted(set(info["rows"]) - {(a, b, c) for a, b, c, *_ in c11_sites.SITES}):
+            m_ = re.search(r"\(([A-Za-z_][A-Za-z0-9_]*)\)$", i_)
+            if k_ == "env" and m_:
+                unknown_env.append(m_.group(1))
+    for var in unknown_env:
+        for val in ("1", "true", "postgres", "sqlite", "mssql", "0.0.1", "x"):
+            scen["env-search:%s=%s" % (var, val)] = [r_ok, {"do": "set_env", "key": var, "value": val}, r_ok,
+                                                     {"src": "from t | take 2..5 | derive {s = f\"{a}x\"}", "format": False, "sig": False, "only_sql": True}]
     sans = run_procs("c11_hist", [[{"steps": s}] for s in scen.values()], timeout=120)
     fresh = run_procs("c11_out", [[r_ok], [dict(r_ok, sig=True)]], timeout=120)
     ref_plain, ref_sig = fresh[0][0], fresh[1][0]
@@ -443,6 +454,9 @@ def run():
             for st, o in zip(steps, outs):
                 if st is r_ok and o != ref_plain:
                     ck.violation("compile() result depends on an earlier, properly finished debug log session", {"history": steps, "got": o, "fresh": ref_plain})
+        elif name.startswith("env-search:"):
+            if outs[0] != outs[2]:
+                ck.violation("compile() output depends on the environment variable %s" % name[11:], {"history": steps, "before": outs[0], "after": outs[2]})
         elif name == "env-roundtrip":
             first, mid, last = outs[0], outs[2], outs[4]
             ck.coverage["env_dependence"] = {"signature_changes_with_PRQL_VERSION_OVERRIDE": first != mid, "restored_after_unset": first == last}
